@@ -974,3 +974,119 @@ def reaching_values(prog, fn, s, target, locals_, env, cap=400):
             d = results[0][l]
             out[l] = formula.evaluate(s.at(d[0], d[1]).rvalue(fn.blocks[d[0]].stmts[d[1]][2]), env)
     return out
+
+
+# ------------------------------------------------------------------------------------------------ emptiness decided from what?
+# byte offset of the flags byte in the preamble and the mask of its EMPTY bit, from the published layouts
+# (frequent items is left out on purpose: since fix 07bab7a its image is "empty" by stream weight while is_empty() counts the
+# active counters -- a sketch purged to no counters still has a weight and an error offset to carry)
+EMPTY_FLAG = {"theta": (5, 4), "bloom": (3, 4), "countmin": (3, 1), "tdigest": (5, 1)}
+_WIDTH = {"u8": 1, "i8": 1, "u16": 2, "i16": 2, "u32": 4, "i32": 4, "f32": 4, "u64": 8, "i64": 8, "f64": 8}
+
+
+def field_support(prog, e, depth=0):
+    """first-level `self` fields an expression depends on; in-crate calls that receive `self` are inlined through their return
+    expression (accessors), library calls (`len`, `is_empty`, `iter().all(..)`) contribute the fields of their arguments.
+    None when a leaf cannot be attributed to fields (an unknown variable, an opaque call on the whole of `self`)."""
+    out = set()
+    for x in sym.walk(e):
+        if x[0] == "field":
+            r = x
+            chain = []
+            while isinstance(r, tuple) and r and r[0] in ("field", "variant", "downcast"):
+                if r[0] == "field":
+                    chain.append(r[2])
+                r = r[1]
+            if isinstance(r, tuple) and r and r[0] == "param" and show(r) == "self" and chain:
+                out.add(chain[-1])
+        elif x[0] == "call" and x[1] in prog.fns and x[2] and any(show(a) == "self" for a in x[2]):
+            if depth > 3:
+                return None
+            r = ret_expr(prog, prog.fns[x[1]])
+            if r is None:
+                return None
+            sub = field_support(prog, r, depth + 1)
+            if sub is None:
+                return None
+            out |= sub
+        elif x[0] == "var":
+            return None
+    return out
+
+
+def emptiness_decisions(prog, fam):
+    """the conditions under which the family's writer sets the EMPTY bit of the flags byte: (writer fn, [condition exprs]) or
+    (writer fn | None, None) when the flags byte cannot be located"""
+    from .. import proto, specfmt, formula
+    owner, meth = specfmt.FAMILIES[fam]["writer"]
+    f = pub_fn(prog, owner, meth)
+    if f is None or fam not in EMPTY_FLAG:
+        return f, None
+    off, mask = EMPTY_FLAG[fam]
+    sites = proto.model(prog, f, "w")
+    # flags-byte candidates: u8 sites reached after exactly `off` bytes of non-loop sites that share their guards' prefix; the
+    # writers emit the preamble in one run, possibly once per branch (an early-return arm for the empty image)
+    conds = []
+    found = 0
+    pos = 0
+    prev_guard = None
+    for st in sites:
+        g = repr(st.guards)
+        if prev_guard is not None and g != prev_guard and st.kind.rstrip("*")[:2] in ("u8",) and pos != off:
+            # a new arm that starts its own preamble
+            pass
+        k = st.kind.rstrip("*")
+        w = _WIDTH.get(k[:3] if k[:3] in _WIDTH else k[:2])
+        if st.loop or w is None:
+            break
+        if pos == off and k == "u8":
+            found += 1
+            v = st.value
+            if v is None:
+                return f, None
+            if v[0] == "const":
+                continue
+            for x in sym.walk(v):
+                if x[0] == "select":
+                    try:
+                        a = formula.evaluate(x[2], {})
+                        b = formula.evaluate(x[3], {})
+                    except formula.Uneval:
+                        continue
+                    if isinstance(a, int) and isinstance(b, int) and (a ^ b) & mask:
+                        conds.append(x[1])
+            break
+        pos += w
+        prev_guard = g
+    if not found:
+        return f, None
+    return f, conds
+
+
+def emptiness_rule(res, prog, rule, fams):
+    """the writer takes the EMPTY bit from the state the public `is_empty()` reads.  A decision over other fields (the counters
+    instead of the total weight, the collected entries instead of the stored flag) agrees with it on ordinary histories and parts
+    from it after halve/decay, screening or purging: the image then says "empty" for a sketch that is not (weight, theta or error
+    offset lost), or the other way round."""
+    from .. import specfmt
+    n = 0
+    for fam in fams:
+        owner, meth = specfmt.FAMILIES[fam]["writer"]
+        ie = pub_fn(prog, owner, "is_empty")
+        f, conds = emptiness_decisions(prog, fam)
+        if ie is None or f is None or not conds:
+            res.tri(None, rule, "%s|%s" % (rule, fam), "EMPTY bit of the %s flags byte not located / not conditional" % fam)
+            continue
+        r = ret_expr(prog, ie)
+        api = field_support(prog, r) if r is not None else None
+        for c in conds:
+            n += 1
+            sup = field_support(prog, c)
+            ok = None
+            if api and sup:
+                ok = bool(api & sup)
+            res.tri(ok, rule, "%s|%s" % (rule, fam),
+                    "%s writer sets the EMPTY flag under `%s` (reads %s) while is_empty() reads %s: the two part on states where these fields disagree" % (
+                        fam, show(c)[:80], sorted(sup or []), sorted(api or [])), f.id,
+                    sample={"rule": rule, "family": fam, "decision": show(c)[:100], "reads": sorted(sup or []), "is_empty_reads": sorted(api or [])})
+    return n
